@@ -51,8 +51,12 @@ def w_value(v):
     return [tag, str(x)]
 
 
+WIRE_KIND = {'csv': 'csv', 'tsv': 'csv', 'xlsx': 'csv', 'parquet': 'columnar', 'feather': 'columnar', 'orc': 'columnar', 'json': 'json', 'xml': 'xml',
+             'view': 'view', 'sqltable': 'sqltable', 'sqlquery': 'sqlquery', 'frame': 'frame'}
+
+
 def w_source(s):
-    return [s['key'], s.get('kind', 'csv'), list(s['cols']), [[w_value(v) for v in r] for r in s['rows']]]
+    return [s['key'], WIRE_KIND[s.get('kind', 'csv')], list(s['cols']), [[w_value(v) for v in r] for r in s['rows']]]
 
 
 def w_cfg(c):
@@ -212,7 +216,7 @@ def render_source(V, src, style, paths):
     kind = src.get('kind', 'csv')
     if kind in ('sqltable',):
         return '%s [ %s %s ]' % (_p(V.logical_source), _p(V.table_name), ttl_str(src['table']))
-    if kind in ('sqlquery',):
+    if kind in ('sqlquery', 'view'):
         return '%s [ %s %s ]' % (_p(V.logical_source), _p(V.sql_query), ttl_str(src['query']))
     if style.vocab == 'r2rml':
         # R2RML has no file sources: the logical table is given by file_path in the configuration
@@ -315,25 +319,134 @@ def write_sqlite(path, tables):
     con.close()
 
 
+def plain_value(v):
+    """cell -> python value for typed writers"""
+    if v is None or isinstance(v, str):
+        return v
+    tag, x = v
+    return float(x) if tag == 'f' else (bool(x) if tag == 'b' else int(x))
+
+
+def write_json(path, cols, rows, null_style='null'):
+    recs = []
+    for r in rows:
+        d = {}
+        for c, v in zip(cols, r):
+            if v is None and null_style == 'absent':
+                continue
+            d[c] = plain_value(v)
+        recs.append(d)
+    with open(path, 'w', encoding='utf-8') as f:
+        json.dump(recs, f, ensure_ascii=False)
+
+
+def write_xml(path, cols, rows, null_style='absent'):
+    from xml.sax.saxutils import escape
+    out = ['<?xml version="1.0" encoding="UTF-8"?>\n<root>']
+    for r in rows:
+        out.append('<row>')
+        for c, v in zip(cols, r):
+            if v is None:
+                if null_style == 'empty':
+                    out.append('<%s/>' % c)
+                continue
+            out.append('<%s>%s</%s>' % (c, escape(cell_text(v)), c))
+        out.append('</row>')
+    out.append('</root>')
+    with open(path, 'w', encoding='utf-8') as f:
+        f.write(''.join(out))
+
+
+def write_frame_file(path, kind, cols, rows):
+    import pandas as pd
+    if kind == 'xlsx':
+        df = pd.DataFrame([[plain_value(v) for v in r] for r in rows], columns=cols)
+        df.to_excel(path, index=False, engine='openpyxl')
+        return
+    import pyarrow as pa
+    arrays = []
+    for i, c in enumerate(cols):
+        vals = [plain_value(r[i]) for r in rows]
+        kinds = set(type(v) for v in vals if v is not None)
+        typ = pa.string()
+        if kinds == {int}:
+            typ = pa.int64()
+        elif kinds and kinds <= {int, float}:
+            typ = pa.float64(); vals = [None if v is None else float(v) for v in vals]
+        elif kinds == {bool}:
+            typ = pa.bool_()
+        elif kinds - {str}:
+            vals = [None if v is None else str(v) for v in vals]
+        arrays.append(pa.array(vals, type=typ))
+    table = pa.Table.from_arrays(arrays, names=list(cols))
+    if kind == 'parquet':
+        import pyarrow.parquet as pq
+        pq.write_table(table, path)
+    elif kind == 'feather':
+        import pyarrow.feather as pf
+        pf.write_feather(table, path)
+    elif kind == 'orc':
+        import pyarrow.orc as po
+        po.write_table(table, path)
+    else:
+        raise ValueError(kind)
+
+
+FILE_KINDS = ('csv', 'tsv', 'json', 'xml', 'parquet', 'feather', 'orc', 'xlsx')
+
+
 def materialise_files(case, wd, style=None, name='m'):
     """Writes data + mapping files for `case` into directory wd; returns the config text (paths relative to wd)."""
     style = style or Style()
     paths = {}
     sqlite_tables = {}
+    file_paths = {}
     for i, s in enumerate(case['sources']):
         kind = s.get('kind', 'csv')
         if kind in ('csv', 'tsv'):
             fn = '%s_%d.%s' % (name, i, kind)
             write_csv(os.path.join(wd, fn), s['cols'], s['rows'], ',' if kind == 'csv' else '\t')
             paths[s['key']] = fn
+        elif kind == 'json':
+            fn = '%s_%d.json' % (name, i)
+            write_json(os.path.join(wd, fn), s['cols'], s['rows'], s.get('null_style', 'null'))
+            paths[s['key']] = fn
+            s.setdefault('iterator', '$[*]')
+        elif kind == 'xml':
+            fn = '%s_%d.xml' % (name, i)
+            write_xml(os.path.join(wd, fn), s['cols'], s['rows'], s.get('null_style', 'absent'))
+            paths[s['key']] = fn
+            s.setdefault('iterator', '/root/row')
+        elif kind in ('parquet', 'feather', 'orc', 'xlsx'):
+            fn = '%s_%d.%s' % (name, i, kind)
+            write_frame_file(os.path.join(wd, fn), kind, s['cols'], s['rows'])
+            paths[s['key']] = fn
+        elif kind == 'view':
+            # rml:query over a CSV file (tabular view, evaluated by DuckDB)
+            fn = '%s_%d.csv' % (name, i)
+            write_csv(os.path.join(wd, fn), s['cols'], s['rows'], ',')
+            s['query'] = s.get('query_template', "SELECT * FROM '{path}'").format(path=fn)
+            paths[s['key']] = fn
         elif kind in ('sqltable', 'sqlquery'):
+            s.setdefault('table', 't%d' % i)
+            if kind == 'sqlquery':
+                s.setdefault('query', 'SELECT * FROM "%s"' % s['table'])
             sqlite_tables[s['table']] = (s['cols'], s['rows'], s.get('types'))
     if sqlite_tables:
         write_sqlite(os.path.join(wd, name + '.db'), sqlite_tables)
+    if case.get('file_path_option'):
+        # the file is named by the file_path option of the section instead of the mapping (one file source only)
+        key = case['file_path_option']
+        file_paths[key] = paths[key]
     mp = name + '.ttl'
     with open(os.path.join(wd, mp), 'w', encoding='utf-8') as f:
-        f.write(render_mapping(case, style, paths))
-    return config_text(case, [('DS', {'mappings': mp, **({'db_url': 'sqlite:///' + name + '.db'} if sqlite_tables else {})})])
+        f.write(render_mapping(case, style, {k: ('ignored-by-file_path.csv' if k in file_paths else v) for k, v in paths.items()}))
+    opts = {'mappings': mp}
+    if sqlite_tables:
+        opts['db_url'] = 'sqlite:///' + name + '.db'
+    if file_paths:
+        opts['file_path'] = list(file_paths.values())[0]
+    return config_text(case, [('DS', opts)])
 
 
 def config_text(case, sections, extra=None):
